@@ -349,9 +349,10 @@ Fixpoint check_dumps (evs : list sx) (dumps : list sx) : sx :=
    description (computed by the specification functions parse_nodes / set_replicaset / table_lookup) *)
 Fixpoint compare_ticks (evs : list sx) (impl model : list sx) : sx :=
   match evs, impl, model with
-  | SL [SN 1%Z] :: evs', SL [_; si; _; _; oi] :: impl', SL [_; sm; _; _; om] :: model' =>
-      if (sx_eqb si sm && sx_eqb oi om)%bool then compare_ticks evs' impl' model'
-      else viol "topology-after-ticker-differs-from-latest-valid-description" [sm; om]
+  | SL [SN 1%Z] :: evs', SL [_; si; _; pi; oi] :: impl', SL [_; sm; _; pm; om] :: model' =>
+      if negb (sx_eqb si sm && sx_eqb oi om)%bool then viol "topology-after-ticker-differs-from-latest-valid-description" [sm; om]
+      else if negb (sx_eqb pi pm) then viol "pool-set-or-pool-role-differs-from-latest-valid-description" [pm; pi]
+      else compare_ticks evs' impl' model'
   | _ :: evs', _ :: impl', _ :: model' => compare_ticks evs' impl' model'
   | _, _, _ => ok
   end.
@@ -868,9 +869,28 @@ Fixpoint check_replies (limit : Z) (pw : bytes) (reqs : list (list bytes)) (reps
 
 Definition last_obs (obs : list sx) : sx := last obs (SL []).
 
+(* C16: a timeout scan that follows a task round (so every routed fragment has been written) with
+   every deadline passed completes every request: no open client keeps a queued request *)
+Fixpoint scan_leaves_requests (prev_tasks : bool) (evs obs : list sx) : bool :=
+  match evs, obs with
+  | e :: evs', o :: obs' =>
+      let is_tasks := match e with SL (SN 2%Z :: _) => true | _ => false end in
+      let is_scan := match e with SL [SN 6%Z] => true | _ => false end in
+      if (is_scan && prev_tasks &&
+          match o with
+          | SL [SL cs; _] => existsb (fun c => match c with SL [_; SN op; SN qlen; _; _] => negb (Z.eqb op 0) && negb (Z.eqb qlen 0) | _ => false end) cs
+          | _ => false
+          end)%bool
+      then true else scan_leaves_requests is_tasks evs' obs'
+  | _, _ => false
+  end.
+
 Definition o_loop (a : sx) : sx :=
   match a with
-  | SL [SL [SL [SN limit; SB pw; _; _]; _; _; SL evs]; SL obs] =>
+  | SL [SL [SL [SN limit; SB pw; SN tmo; _]; _; _; SL evs]; SL obs] =>
+      if (negb (Z.eqb tmo 0) && scan_leaves_requests false evs obs)%bool
+      then viol "request-not-completed-by-the-timeout-scan" []
+      else
       (* (a) C09: never a completed head at the end of an event *)
       if existsb (fun o => match o with
                            | SL [SL cs; _] => existsb (fun c => match c with SL [_; SN op; _; _; SN hd] => negb (Z.eqb op 0) && negb (Z.eqb hd 0) | _ => false end) cs
